@@ -224,7 +224,43 @@ func filteredPaginateCallback(c *Ctx, parent *ssa.Function, call *ssa.Call, cb *
 		}
 	}
 	r.Require(nApp >= 1, "A12.element", key+"|has-append", w.Pos(cb.Pos()), "the callback collects hits into a captured slice", "no store to a captured variable")
-	// (b)+(c): non-error returns are independent of accumulate
+	// (b)+(c): non-error returns are independent of accumulate. Control dependence, decided at every branch on
+	// accumulate: the hit results (non-error returns) that can follow its true side and its false side are the
+	// same set, and a single value — the same filters then decide the same way whatever accumulate is. (A branch
+	// that filters on one side only, or answers "hit" on one side before the filters run, differs.)
+	resultsFrom := func(b *ssa.BasicBlock) map[string]bool {
+		out := map[string]bool{}
+		for _, ret := range ir.Returns(cb) {
+			if w.ProvablyNonNil(cb, ret, ret.Results[1]) {
+				continue
+			}
+			if ir.ReachesFrom(cb, b, 0, ret, ir.Cut{}) {
+				out[w.ExprOf(ret.Results[0]).String()] = true
+			}
+		}
+		return out
+	}
+	accBranches := map[int]bool{}
+	for k := range tr {
+		accBranches[k[0]] = true
+	}
+	for k := range fa {
+		accBranches[k[0]] = true
+	}
+	for bi := range accBranches {
+		b := cb.Blocks[bi]
+		if len(b.Succs) != 2 {
+			continue
+		}
+		rt, rf := resultsFrom(b.Succs[0]), resultsFrom(b.Succs[1])
+		same := len(rt) == len(rf) && len(rt) == 1
+		for k := range rt {
+			if !rf[k] {
+				same = false
+			}
+		}
+		r.Require(same, "A12.hit-independent-of-accumulate", fmt.Sprintf("%s|branch-b%d", key, bi), pos(c, b.Instrs[len(b.Instrs)-1]), "on both sides of a test of accumulate the item counts as a hit in the same way (one and the same result)", fmt.Sprintf("results after the test: one side %s, other side %s", setStr(rt), setStr(rf)))
+	}
 	for i, ret := range ir.Returns(cb) {
 		if w.ProvablyNonNil(cb, ret, ret.Results[1]) {
 			continue
@@ -232,8 +268,7 @@ func filteredPaginateCallback(c *Ctx, parent *ssa.Function, call *ssa.Call, cb *
 		rk := fmt.Sprintf("%s|return%d", key, i)
 		e := w.ExprOf(ret.Results[0])
 		dataDep := mentionsParam(e, acc.Name())
-		ctrlDep := !(ir.Reaches(cb, ret, ir.Cut{Edges: tr}) && ir.Reaches(cb, ret, ir.Cut{Edges: fa}))
-		r.Require(!dataDep && !ctrlDep, "A12.hit-independent-of-accumulate", rk, pos(c, ret), "whether an item counts as a hit does not depend on accumulate", fmt.Sprintf("result %s; data-dependent=%v control-dependent=%v", e.String(), dataDep, ctrlDep))
+		r.Require(!dataDep, "A12.hit-independent-of-accumulate", rk, pos(c, ret), "whether an item counts as a hit does not depend on accumulate", fmt.Sprintf("result %s is computed from accumulate", e.String()))
 		// (e) a false result only under a request-dependent filter
 		if cst, ok := ret.Results[0].(*ssa.Const); ok && cst.Value != nil && cst.Value.String() == "true" {
 			continue
